@@ -289,6 +289,7 @@ def run(ctx):
     ts = j2front.TemplateSet(ctx.root)
     cd = Codec(ts)
     rule_dispatch(ctx, cd, "ser", "R-C01-DISPATCH")
+    _codec.rule_entry(ctx, cd, "ser", "R-C01-ENTRY")
     rule_reject(ctx, cd)
     rule_errprop(ctx, cd, "ser", "R-C01-ERRPROP")
     rule_advance(ctx, cd)
